@@ -924,6 +924,8 @@ def adapt_typehints(
         elif not isinstance(val, dict):
             raise_unexpected_value(f"Expected a {typehint_origin}", val)
         if subtypehints is not None:
+            if subtypehints[0] == str and not all(isinstance(k, str) for k in val):
+                raise_unexpected_value(f"Expected a {typehint_origin} with str keys", val)
             if subtypehints[0] == int:
                 cast = str if serialize else int
                 val = {cast(k): v for k, v in val.items()}
